@@ -605,6 +605,35 @@ func generate(emit func(k kase)) {
 			put(kase{K: "ver", A: pubTerm(seed, path[:l-1], min(j1, l-1)), B: k, M: m, M2: m, Note: "parent key"})
 		}
 	}
+	// Dense derivation chains: many fresh seeds, one depth-8 path each, and at EVERY prefix of the path the
+	// commutation equation (all-private against all-public derivation) and one sign/verify pairing (the
+	// privately derived key signs, the publicly derived key verifies). Rare arithmetic slips in a single
+	// derivation step (e.g. a lost carry in the scalar addition, ~1 step in 200) need thousands of distinct steps.
+	chains := 700
+	if vh.Tier() == "thorough" {
+		chains = 4000
+	}
+	for c := 0; c < chains; c++ {
+		seed := 1000 + c
+		path := make([]int, 8)
+		for i := range path {
+			path[i] = 1 + r.Intn(nSels)
+		}
+		m := 1 + r.Intn(nMsgs)
+		for j := 1; j <= len(path); j++ {
+			allPub := pubTerm(seed, path[:j], 0)
+			put(kase{K: "eq", A: pubTerm(seed, path[:j], j), B: allPub, Note: "chain prefix, all private vs all public"})
+			put(kase{K: "ver", A: allPub, B: prvTerm(seed, path[:j]), M: m, M2: m, Note: "chain prefix, derived key signs and publicly derived key verifies"})
+		}
+	}
+}
+
+// chainSteps is the number of distinct (seed, path prefix) derivation steps of the dense chains.
+func chainSteps() int {
+	if vh.Tier() == "thorough" {
+		return 4000 * 8
+	}
+	return 700 * 8
 }
 
 func min(a, b int) int {
@@ -632,7 +661,7 @@ func gen(path string) {
 	})
 	wr.Flush()
 	f.Close()
-	vh.Summary(map[string]interface{}{"cases": n, "depth8": deep})
+	vh.Summary(map[string]interface{}{"cases": n, "depth8": deep, "chain_derivation_steps": chainSteps()})
 }
 
 type expect struct {
